@@ -289,6 +289,73 @@ func funcName(d *ast.FuncDecl) string {
 	return d.Name.Name
 }
 
+// ekuTable reads x509/extended_key_usage.go: the string constants OID_EKU_… and every assignment
+// `ekuConstants[<const>] = …` (the map extKeyUsageFromOID looks an OID up in, by its dotted string); result: the dotted
+// keys in source order, and the source text of extKeyUsageFromOID's body (x509.go).
+func ekuTable(repo string) (keys []string, lookup string, err error) {
+	fset := token.NewFileSet()
+	f, err := parser.ParseFile(fset, filepath.Join(repo, "x509/extended_key_usage.go"), nil, 0)
+	if err != nil {
+		return nil, "", err
+	}
+	consts := map[string]string{}
+	for _, d := range f.Decls {
+		gd, ok := d.(*ast.GenDecl)
+		if !ok || gd.Tok != token.CONST {
+			continue
+		}
+		for _, sp := range gd.Specs {
+			vs := sp.(*ast.ValueSpec)
+			for k, n := range vs.Names {
+				if k < len(vs.Values) {
+					if bl, ok := vs.Values[k].(*ast.BasicLit); ok && bl.Kind == token.STRING {
+						consts[n.Name] = strings.Trim(bl.Value, "\"`")
+					}
+				}
+			}
+		}
+	}
+	ast.Inspect(f, func(n ast.Node) bool {
+		as, ok := n.(*ast.AssignStmt)
+		if !ok || len(as.Lhs) != 1 {
+			return true
+		}
+		ix, ok := as.Lhs[0].(*ast.IndexExpr)
+		if !ok {
+			return true
+		}
+		if m, ok := ix.X.(*ast.Ident); !ok || m.Name != "ekuConstants" {
+			return true
+		}
+		key := "<non-constant key>"
+		switch k := ix.Index.(type) {
+		case *ast.Ident:
+			if v, ok := consts[k.Name]; ok {
+				key = v
+			}
+		case *ast.BasicLit:
+			key = strings.Trim(k.Value, "\"`")
+		}
+		keys = append(keys, key)
+		return true
+	})
+	e := &ex{fset: token.NewFileSet()}
+	g, err := parser.ParseFile(e.fset, filepath.Join(repo, "x509/x509.go"), nil, 0)
+	if err != nil {
+		return nil, "", err
+	}
+	for _, d := range g.Decls {
+		if fd, ok := d.(*ast.FuncDecl); ok && fd.Name.Name == "extKeyUsageFromOID" && fd.Body != nil {
+			var parts []string
+			for _, st := range fd.Body.List {
+				parts = append(parts, e.src(st))
+			}
+			lookup = strings.Join(parts, "; ")
+		}
+	}
+	return keys, lookup, nil
+}
+
 func run(repo string) (string, error) {
 	var sites []site
 	decl := ""
@@ -394,6 +461,30 @@ func run(repo string) (string, error) {
 	b.WriteString("def permissiveSiteConds : List String := " + zvx.LeanList(conds) + "\n")
 	b.WriteString("/-- polarity histogram, first-occurrence order -/\n")
 	b.WriteString("def permissivePolarityHist : List (String × Nat) := " + zvx.LeanList(hs) + "\n")
+	keys, lookup, err := ekuTable(repo)
+	if err != nil {
+		return "", err
+	}
+	var ks []string
+	for _, k := range keys {
+		arcs := strings.Split(k, ".")
+		okk := len(arcs) > 0
+		for _, a := range arcs {
+			if a == "" || strings.Trim(a, "0123456789") != "" {
+				okk = false
+			}
+		}
+		if !okk {
+			arcs = []string{"-1"} // not a dotted OID: an entry no OID can match, visible in the table
+		}
+		ks = append(ks, "["+strings.Join(arcs, ", ")+"]")
+	}
+	b.WriteString("/-- the keys of the map `ekuConstants` (x509/extended_key_usage.go, `ekuConstants[OID_EKU_…] = …`, constants resolved),\n")
+	b.WriteString("    as arc lists, source order: the OIDs `extKeyUsageFromOID` reports as known -/\n")
+	b.WriteString("def ekuKnownOIDs : List (List Int) := " + zvx.LeanList(ks) + "\n")
+	b.WriteString(fmt.Sprintf("def ekuKnownCount : Nat := %d\n", len(ks)))
+	b.WriteString("/-- the statements of `extKeyUsageFromOID` (x509.go) -/\n")
+	b.WriteString("def extKeyUsageFromOIDBody : String := " + zvx.LeanStr(lookup) + "\n")
 	b.WriteString("end ZV.Generated.C20\n")
 	return b.String(), nil
 }
